@@ -85,6 +85,9 @@ void enccfg_json(const enccfg_t *c, char *out, size_t n);
 enum { PAGE_DEFAULT=0, PAGE_FLUSH_EACH, PAGE_FILL, PAGE_RANDOM, PAGE_NKINDS };
 void mux_stream(const pktlist_t *pk, int serial, int policy, int fill, uint64_t seed, buf_t *out);
 void mux_stream_off(const pktlist_t *pk, int serial, int policy, int fill, uint64_t seed, long goffset, buf_t *out);
+/* hand-built pages: 1-3 packets per page, and every few pages a pair A|B where B holds nothing but the tail of a packet begun on A
+   (valid Ogg that libogg's own paging almost never produces; page seeks then have to walk backwards from B) */
+void mux_tailpages(const pktlist_t *pk, int serial, uint64_t seed, buf_t *out);
 typedef struct {
   long off, len; int serial; ogg_int64_t granule; int bos, eos, continued, packets; long pageno;
 } pageinfo_t;
